@@ -34,6 +34,11 @@ fn small_val(rng: &mut Rng) -> Val {
 
 fn b(e: Expr) -> Box<Expr> { Box::new(e) }
 
+thread_local! {
+    /// programs may contain `Expr::Race` (abandoned sub-queries)
+    pub static RACE: std::cell::Cell<bool> = const { std::cell::Cell::new(false) };
+}
+
 fn gen_expr(rng: &mut Rng, avail: &[u32], depth: u32, vectorish: bool) -> Expr {
     if avail.is_empty() {
         return Expr::Const(small_val(rng));
@@ -47,6 +52,9 @@ fn gen_expr(rng: &mut Rng, avail: &[u32], depth: u32, vectorish: bool) -> Expr {
         };
     }
     let d = depth - 1;
+    if RACE.with(std::cell::Cell::get) && rng.chance(1, 10) {
+        return Expr::Race(*rng.pick(avail), b(gen_expr(rng, avail, d, vectorish)));
+    }
     match rng.below(if vectorish { 14 } else { 12 }) {
         0 | 1 => Expr::Add(b(gen_expr(rng, avail, d, false)), b(gen_expr(rng, avail, d, false))),
         2 => Expr::Mul(b(gen_expr(rng, avail, d, false)), rng.range(2, 10) as i64),
@@ -395,13 +403,25 @@ pub fn gen_fault_history(rng: &mut Rng, prog: &Program, p: &GenParams, kind: u64
             op: Box::new(Op::Query { root: root(rng), new_tracked: true }),
             fault: Fault::Cancel { target: Target::Query, n: 0 },
         },
-        1 => Op::Faulted {
+        1 | 5 => Op::Faulted {
             op: Box::new(Op::Concurrent {
                 roots: (0..rng.range(2, 4)).map(|_| root(rng)).collect(),
                 share_tracked: rng.chance(1, 3),
             }),
             fault: Fault::Cancel { target: Target::Query, n: 0 },
         },
+        6 => {
+            let execs: Vec<u32> = (0..n).filter(|i| !matches!(prog.kind(*i), Kind::In | Kind::Ex)).collect();
+            let pjs = prog.of_kind(Kind::Pj);
+            let node = if !pjs.is_empty() && rng.chance(1, 2) { *rng.pick(&pjs) } else if execs.is_empty() { 0 } else { *rng.pick(&execs) };
+            Op::Faulted {
+                op: Box::new(Op::Concurrent {
+                    roots: (0..rng.range(2, 4)).map(|_| root(rng).max(node)).collect(),
+                    share_tracked: rng.chance(1, 3),
+                }),
+                fault: Fault::Panic { node, k: 0 },
+            }
+        }
         2 => {
             let mut sess = gen_session(rng, prog, &mut st, false);
             let mut target = Target::Commit;
